@@ -14,8 +14,9 @@ sys.path.insert(0, str(ROOT))
 sys.path.insert(0, os.environ.get("PV_REPO", "/repo"))
 
 SETUP = (
-    "/venv/bin/python -c 'import hypothesis' 2>/dev/null || "
-    "/venv/bin/pip install --no-index --find-links /opt/veriftools/wheels hypothesis"
+    "(/venv/bin/python -c 'import hypothesis' 2>/dev/null || "
+    "/venv/bin/pip install --no-index --find-links /opt/veriftools/wheels hypothesis) && "
+    "(test -d .deps/atheris || /venv/bin/pip install -q --no-index --find-links /opt/veriftools/wheels --target .deps atheris || true)"
 )
 
 NOT_BUILT_REASON = "check not built yet in this round (design in DESIGN.md section 4); not claimed"
